@@ -309,6 +309,9 @@ def foreign_vocabulary(code_t, ref_t):
     # another estimator call, squeeze/delete/stack ...) is reported as a violation.
     if foreign and foreign <= REWRITE_ONLY_OPS:
         return foreign
+    # (tried and rejected: "any library call without a transfer function => undecided"; three of the
+    # independent breaking changes introduce such a call - np.delete losing the column order, np.ptp in a
+    # wrong shortcut - and would no longer be reported)
     return set()
 
 
